@@ -25,7 +25,7 @@ import (
 type pomOpt struct {
 	Deps       bool // <dependencies> with literal versions
 	Mgmt       bool // <dependencyManagement> with a literal version
-	PropKind   int  // 0 none, 1 ${p}, 2 1.${p}, 3 ${p}-jre, 4 ${p}.${q}
+	PropKind   int  // 0 none, 1 ${p}, 2 1.${p}, 3 ${p}-jre, 4 ${p}.${q}, 5 1.${p}.1, 6 1${p}1 (literal on both sides)
 	PropInMgmt bool // the property-versioned dependency lives in dependencyManagement instead of dependencies
 	Shared     bool // a second dependency uses the same property expression
 	Profile    int  // 0 none, 1 profile with own deps/properties/depMgmt, 2 = 1 + the profile shadows property p and uses it, 3 = 1 + shadows p without using it
@@ -71,6 +71,10 @@ func propTemplate(kind int, p, q string) (tmpl string, props [][2]string) {
 		return "${" + p + "}-jre", [][2]string{{p, "1.0"}}
 	case 4:
 		return "${" + p + "}.${" + q + "}", [][2]string{{p, "1"}, {q, "0"}}
+	case 5:
+		return "1.${" + p + "}.1", [][2]string{{p, "0"}}
+	case 6:
+		return "1${" + p + "}1", [][2]string{{p, "0"}}
 	}
 	return "", nil
 }
@@ -193,6 +197,11 @@ func (o pomOpt) render() (map[string]string, []string) {
 	if o.Plugin {
 		props = append(props, [2]string{"plv", "1.0"})
 	}
+	if o.Profile == 3 {
+		// a project-level property with the name of a property that only the profile's
+		// dependencyManagement uses; no project-level dependency references it
+		props = append(props, [2]string{"fmp", "1.0"})
+	}
 	needProps := len(props) > 0 || o.CDATA || o.Comments
 	if needProps {
 		w.props(props, o.Comments, o.CDATA)
@@ -250,10 +259,11 @@ func (o pomOpt) render() (map[string]string, []string) {
 		if o.Profile == 2 {
 			fd = append(fd, gdep{g: "org.pf", a: "shadow", ver: tmpl})
 		}
+		fp = append(fp, [2]string{"fmp", "1.0"})
 		w.props(fp, o.Comments, false)
 		w.deps(fd, o.Comments)
 		w.open("dependencyManagement")
-		w.deps([]gdep{{g: "org.pf", a: "mg", ver: "1.0"}}, false)
+		w.deps([]gdep{{g: "org.pf", a: "mg", ver: "1.0"}, {g: "org.pf", a: "mgp", ver: "${fmp}"}}, false)
 		w.close("dependencyManagement")
 		w.close("profile")
 		w.close("profiles")
@@ -364,13 +374,13 @@ func genPomDocs(thorough bool) []*pomDoc {
 	}
 	bools := []bool{false, true}
 	// Family A: child only, every structural combination
-	subA, rotA := 2, 1
+	subA, rotA, maxKind := 2, 1, 5
 	if thorough {
-		subA, rotA = 3, 4
+		subA, rotA, maxKind = 3, 4, 6
 	}
 	for _, d := range bools {
 		for _, m := range bools {
-			for pk := 0; pk <= 4; pk++ {
+			for pk := 0; pk <= maxKind; pk++ {
 				for _, pim := range bools {
 					for _, sh := range bools {
 						for pf := 0; pf <= 3; pf++ {
@@ -388,7 +398,7 @@ func genPomDocs(thorough bool) []*pomDoc {
 	pfs := []int{0, 1}
 	subB, rotB := 2, 1
 	if thorough {
-		pks, pfs = []int{0, 1, 2, 3, 4}, []int{0, 1, 2, 3}
+		pks, pfs = []int{0, 1, 2, 3, 4, 5, 6}, []int{0, 1, 2, 3}
 		subB, rotB = 3, 1
 	}
 	for par := 1; par <= 2; par++ {
@@ -448,7 +458,8 @@ func (o pomOpt) weight() int {
 	return w
 }
 
-var pomTargets = []string{"2.0", "1", "3.0.0-jre", "10.1"}
+// 1.1 and 1 are shorter than prefix+suffix of the 1.${p}.1 / 1${p}1 forms (prefix and suffix overlap in the target)
+var pomTargets = []string{"2.0", "1", "3.0.0-jre", "10.1", "1.1"}
 
 func explorePomDoc(r *ev.Run, d *pomDoc) {
 	files, chain := d.Opt.render()
@@ -479,7 +490,7 @@ func explorePomDoc(r *ev.Run, d *pomDoc) {
 		}
 		for t := range pomTargets {
 			if len(sub) >= 2 && !r.Thorough() && t%2 == 1 {
-				continue // quick: sets of >= 2 updates get the uniform targets 2.0 and 3.0.0-jre plus the rotated assignment
+				continue // quick: sets of >= 2 updates get the uniform targets 2.0, 3.0.0-jre, 1.1 plus the rotated assignment
 			}
 			cs := base
 			for _, idx := range sub {
